@@ -18,6 +18,15 @@ func (ex *Exec) paramNames(fn *ssa.Function, args []Value, res Value, haveRes bo
 			names[p.Name()] = args[i]
 		}
 	}
+	base, haveBase := loadSignatureBaseline()[strings.ReplaceAll(fn.String(), modulePrefix+"/", "")]
+	if haveBase && len(base.Params) == len(fn.Params) {
+		// renamed parameters: the name the contract was written against still denotes the same position
+		for i, old := range base.Params {
+			if _, taken := names[old]; !taken && old != "" && old != "_" && i < len(args) {
+				names[old] = args[i]
+			}
+		}
+	}
 	if haveRes {
 		sig := fn.Signature
 		r := sig.Results()
@@ -37,6 +46,13 @@ func (ex *Exec) paramNames(fn *ssa.Function, args []Value, res Value, haveRes bo
 			if i == r.Len()-1 && isErrorType(r.At(i).Type()) {
 				if _, taken := names["err"]; !taken {
 					names["err"] = elems[i]
+				}
+			}
+		}
+		if haveBase && len(base.Results) == r.Len() {
+			for i, old := range base.Results {
+				if _, taken := names[old]; !taken && old != "" && old != "_" && i < len(elems) {
+					names[old] = elems[i]
 				}
 			}
 		}
@@ -473,6 +489,15 @@ func (ex *Exec) loopNames(st *State, fr *Frame, lp *Loop) map[string]Value {
 			names[p.Name()] = v
 		}
 	}
+	if base, ok := loadSignatureBaseline()[strings.ReplaceAll(fr.Fn.String(), modulePrefix+"/", "")]; ok && len(base.Params) == len(fr.Fn.Params) {
+		for i, old := range base.Params {
+			if _, taken := names[old]; !taken && old != "" && old != "_" {
+				if cur, ok := names[fr.Fn.Params[i].Name()]; ok {
+					names[old] = cur
+				}
+			}
+		}
+	}
 	// named allocs (address-taken locals): current content
 	for _, b := range fr.Fn.Blocks {
 		for _, ins := range b.Instrs {
@@ -497,6 +522,29 @@ func (ex *Exec) loopNames(st *State, fr *Frame, lp *Loop) map[string]Value {
 		if _, ok := names[k]; !ok {
 			names[k] = v
 		}
+	}
+	// renamed locals: the names the invariants were written against denote the same positions
+	if base, ok := loadSignatureBaseline()[strings.ReplaceAll(fr.Fn.String(), modulePrefix+"/", "")]; ok {
+		curAllocs, curPhis := localNames(fr.Fn)
+		alias := func(old, cur []string) {
+			if len(old) != len(cur) {
+				return
+			}
+			for i, o := range old {
+				if _, taken := names[o]; taken || o == cur[i] {
+					continue
+				}
+				if v, ok := names[cur[i]]; ok {
+					names[o] = v
+				}
+				if v, ok := names["&"+cur[i]]; ok {
+					names["&"+o] = v
+				}
+			}
+		}
+		alias(base.Allocs, curAllocs)
+		k := fmt.Sprintf("%d", lp.Ordinal)
+		alias(base.Phis[k], curPhis[k])
 	}
 	return names
 }
